@@ -36,7 +36,11 @@ func NewWith(convert StructOptions, value interface{}) Value {
 		if rv := reflect.ValueOf(value); rv.Kind() == reflect.Ptr && rv.IsNil() {
 			return Null{}
 		}
-		return mar.MarshalValue()
+		// (a Marshaler that returns nil has no value: that is null.)
+		if val := mar.MarshalValue(); val != nil {
+			return val
+		}
+		return Null{}
 	}
 
 	// drill through pointers and interfaces to the underlying type
